@@ -77,8 +77,20 @@ def run_case(case):
     res_names = rng.sample(['r1', 'r2'], rng.choice([1, 2]))
     target_res = rng.choice(res_names)
     selector = rng.choice([target_res, [target_res], res_names.index(target_res)])
+    selected = [target_res]
+    omit_resources = False
     if len(res_names) == 1:
         selector = rng.choice([selector, None, -1])
+    elif rng.random() < 0.3:
+        # the step works on BOTH resources (same field names): each must be handled on its own
+        selector = rng.choice([None, list(res_names), 'r.'])
+        selected = list(res_names)
+    elif form == 'set_type' and rng.random() < 0.15:
+        # resources omitted: set_type documents "by default the last resource"
+        omit_resources = True
+        target_res = res_names[-1]
+        selected = [target_res]
+        selector = 'DEFAULT'
     # fields: id, untouched u1/u2, checked fields
     tkeys = rng.sample(sorted(TYPES), rng.randint(1, 3))
     fam_name = rng.choice(['plain', 'alt', 'wild', 'noregex'])
@@ -115,19 +127,19 @@ def run_case(case):
 
     calls_in_row = {}
 
-    def decide(rid):
+    def decide(key):
         # the verdict differs from one offending field to the next within the same row
-        k = calls_in_row[rid] = calls_in_row.get(rid, -1) + 1
-        return (rid * 7 + k * 5) % 3 != 0
+        k = calls_in_row[key] = calls_in_row.get(key, -1) + 1
+        return (key[1] * 7 + k * 5) % 3 != 0
 
     def h4(res_name, row, i, e):
         log.append((res_name, row.get('id'), i, None, type(e).__name__ if e is not None else None))
-        return decide(row.get('id', 0))
+        return decide((res_name, row.get('id', 0)))
 
     def h5(res_name, row, i, e, field):
         log.append((res_name, row.get('id'), i, getattr(field, 'name', None),
                     type(e).__name__ if e is not None else None))
-        return decide(row.get('id', 0))
+        return decide((res_name, row.get('id', 0)))
     handler = {'default': None, 'raise': sv.raise_exception, 'drop': sv.drop, 'ignore': sv.ignore,
                'clear': sv.clear, 'custom4': h4, 'custom5': h5}[policy]
     transform = None
@@ -164,8 +176,11 @@ def run_case(case):
 
             def transform(v, field_name=None, row=None):   # noqa: F811
                 return v[2:] if isinstance(v, str) and v.startswith('T:') else v
-        step = d.set_type(pat, resources=copy.deepcopy(selector), regex=regex, on_error=handler,
-                          transform=transform, **copy.deepcopy(opts))
+        if omit_resources:
+            step = d.set_type(pat, regex=regex, on_error=handler, transform=transform, **copy.deepcopy(opts))
+        else:
+            step = d.set_type(pat, resources=copy.deepcopy(selector), regex=regex, on_error=handler,
+                              transform=transform, **copy.deepcopy(opts))
         for cn in hit:
             checked[cn] = dict({'name': cn, 'type': 'string'}, **opts)
         out_fields = [checked.get(f['name'], f) for f in in_fields]
@@ -196,66 +211,69 @@ def run_case(case):
     # ---------------- oracle -------------------------------------------------------------------
     sch = tableschema.Schema({'fields': copy.deepcopy(out_fields)})
     fobj = {f.name: f for f in sch.fields}
-    rows_in = copy.deepcopy(tables[target_res])
-    exp_rows, exp_log, first_bad = [], [], None
+    exp_by_res, rows_in_by_res = {}, {}
+    exp_log, first_bad = [], None
     nvalid = ninvalid = 0
-    for i, row in enumerate(rows_in):
-        new = dict(row)
-        bad = []
-        if fn_mode is not None:
-            if not fn_mode(row):
-                bad = [None]
-                ninvalid += 1
-            else:
-                nvalid += 1
-        else:
-            for f in out_fields:
-                n = f['name']
-                if n not in checked:
-                    continue
-                v = row.get(n)
-                if transform is not None:
-                    v = transform(v)
-                    new[n] = v
-                counters['cells_checked'] += 1
-                try:
-                    new[n] = fobj[n].cast_value(v)
-                    nvalid += 1
-                except CastError:
-                    bad.append(n)
-                    ninvalid += 1
-        counters['bad_cells_expected'] += len(bad)
-        if bad and first_bad is None:
-            first_bad = (i, row['id'], bad[0])
-        if bad:
-            cov['bad_position']['first' if i == 0 else 'last' if i == len(rows_in) - 1 else 'middle'] = 1
-            if len(bad) > 1:
-                cov['bad_position']['multi_field_row'] = 1
-        keep = True
-        if policy in ('default', 'raise'):
-            keep = not bad
-        elif policy == 'drop':
-            keep = not bad
-        elif policy == 'ignore':
-            keep = True
-        elif policy == 'clear':
-            if fn_mode is not None:
-                keep = not bad          # clear() without a field returns False
-            else:
-                for n in bad:
-                    new[n] = None
-        else:
-            for kk, n in enumerate(bad):
-                exp_log.append((target_res, row['id'], i, n if policy == 'custom5' else None))
-                ret = (row['id'] * 7 + kk * 5) % 3 != 0
-                keep = keep and ret
-        if keep:
-            exp_rows.append((new, bad))
+    for target_res in [rn for rn in res_names if rn in selected]:
+      rows_in = rows_in_by_res[target_res] = copy.deepcopy(tables[target_res])
+      exp_rows = exp_by_res[target_res] = []
+      for i, row in enumerate(rows_in):
+          new = dict(row)
+          bad = []
+          if fn_mode is not None:
+              if not fn_mode(row):
+                  bad = [None]
+                  ninvalid += 1
+              else:
+                  nvalid += 1
+          else:
+              for f in out_fields:
+                  n = f['name']
+                  if n not in checked:
+                      continue
+                  v = row.get(n)
+                  if transform is not None:
+                      v = transform(v)
+                      new[n] = v
+                  counters['cells_checked'] += 1
+                  try:
+                      new[n] = fobj[n].cast_value(v)
+                      nvalid += 1
+                  except CastError:
+                      bad.append(n)
+                      ninvalid += 1
+          counters['bad_cells_expected'] += len(bad)
+          if bad and first_bad is None:
+              first_bad = (i, row['id'], bad[0], target_res)
+          if bad:
+              cov['bad_position']['first' if i == 0 else 'last' if i == len(rows_in) - 1 else 'middle'] = 1
+              if len(bad) > 1:
+                  cov['bad_position']['multi_field_row'] = 1
+          keep = True
+          if policy in ('default', 'raise'):
+              keep = not bad
+          elif policy == 'drop':
+              keep = not bad
+          elif policy == 'ignore':
+              keep = True
+          elif policy == 'clear':
+              if fn_mode is not None:
+                  keep = not bad          # clear() without a field returns False
+              else:
+                  for n in bad:
+                      new[n] = None
+          else:
+              for kk, n in enumerate(bad):
+                  exp_log.append((target_res, row['id'], i, n if policy == 'custom5' else None))
+                  ret = (row['id'] * 7 + kk * 5) % 3 != 0
+                  keep = keep and ret
+          if keep:
+              exp_rows.append((new, bad))
     expect_raise = policy in ('default', 'raise') and first_bad is not None
 
     srcs = [lab.source(rn, in_fields, tables[rn]) for rn in res_names]
     got = lab.run(srcs + steps_pre + [step])
-    sample = {'config': cfg, 'fields': out_fields, 'rows': gen.render(tables[target_res][:4], 500)}
+    sample = {'config': cfg, 'fields': out_fields, 'rows': gen.render(tables[selected[0]][:4], 500)}
 
     def add(kind, msg, mech=None):
         viol.append({'kind': kind, 'mech': mech or '%s/%s' % (form, policy), 'msg': msg, 'config': cfg})
@@ -271,7 +289,8 @@ def run_case(case):
             elif type(c).__name__ != 'ValidationError' or not hasattr(c, 'row'):
                 add('wrong_cause', '%r: cause %r is not a dataflows ValidationError' % (cfg, c))
             else:
-                if c.index != first_bad[0] or c.row.get('id') != first_bad[1]:
+                if c.index != first_bad[0] or c.row.get('id') != first_bad[1] or \
+                        getattr(c, 'resource_name', first_bad[3]) != first_bad[3]:
                     add('wrong_row', '%r: ValidationError index=%r row id=%r expected index=%r id=%r'
                         % (cfg, c.index, c.row.get('id'), first_bad[0], first_bad[1]))
         return dict(nontrivial=nvalid > 0 and ninvalid > 0, violations=viol, cov=cov, counters=counters,
@@ -282,7 +301,8 @@ def run_case(case):
     gg = got.by_name()
     for rn in res_names:
         gdesc, grows = gg[rn]
-        if rn != target_res:
+        exp_rows, rows_in = exp_by_res.get(rn), rows_in_by_res.get(rn)
+        if rn not in selected:
             if _norm(gdesc['schema']['fields']) != _norm(in_fields) or lab.rows_diff(tables[rn], grows):
                 add('unselected_changed', '%r: resource %s changed' % (cfg, rn))
             continue
